@@ -187,14 +187,17 @@ def tr_decoder(fn: ast.FunctionDef) -> dict:
                 steps.append(f"(SAddOff {cz(lit_int(st.value))})")
             continue
         if isinstance(st, ast.Assert):
-            # assert <var> is int
+            # assert isinstance(<var>, int)
             t = st.test
-            if not (isinstance(t, ast.Compare) and len(t.ops) == 1 and isinstance(t.ops[0], ast.Is)
-                    and is_name(t.left) and is_name(t.comparators[0], "int") and st.msg is None):
-                raise Refuse(st, "assert <var> is int expected")
-            if t.left.id not in val_owner:
+            c = call_of(t, "isinstance", 2)
+            if isinstance(t, ast.Compare) and len(t.ops) == 1 and isinstance(t.ops[0], ast.Is) \
+                    and is_name(t.comparators[0], "int"):
+                raise Refuse(st, "`assert <var> is int` compares the value with the type object and always fails")
+            if not (c is not None and is_name(c.args[0]) and is_name(c.args[1], "int") and st.msg is None):
+                raise Refuse(st, "assert isinstance(<var>, int) expected")
+            if c.args[0].id not in val_owner:
                 raise Refuse(st, "assert on a variable that is not an earlier field's value")
-            steps.append(f"(SAssertIsInt {val_owner[t.left.id]})")
+            steps.append(f"(SAssertIsInt {val_owner[c.args[0].id]})")
             continue
         if isinstance(st, ast.Expr):
             # nmea2000Message.fields.append(NMEA2000Field(...9 args...))
